@@ -328,4 +328,101 @@ theorem sqL2DiagProx_entry_real (scale lam w a y v : K) :
 
 end diagmodel
 
+/-! ### the system handed to `cg`, and the closed form on whole arrays -/
+section cgsystem
+variable {K : Type} [Field K]
+
+/-- the system `SquaredL2Loss.prox` hands to `cg` — `lhs = Identity + lam * hessian` with
+    `hessian = 2·scale·AᴴWA`, `rhs = v + 2·lam·scale·AᴴW y` — is entry by entry the documented
+    `(I + 2αλ AᴴWA) x` and `v + 2αλ AᴴW y` -/
+theorem sqL2Lhs_eq (scale lam : K) (ahwa : List K → List K) (x : List K) :
+    sqL2Lhs scale lam ahwa x = List.zipWith (fun xi ti => xi + 2 * scale * lam * ti) x (ahwa x) := by
+  unfold sqL2Lhs
+  rw [List.zipWith_map_right]
+  congr 1
+  funext a b
+  ring
+
+theorem sqL2Rhs_eq (scale lam : K) (ahwy v : List K) :
+    sqL2Rhs scale lam ahwy v = List.zipWith (fun vi ti => vi + 2 * scale * lam * ti) v ahwy := by
+  unfold sqL2Rhs
+  rw [List.zipWith_map_right]
+  congr 1
+  funext a b
+  ring
+
+end cgsystem
+
+section diaglist
+variable {K : Type} [Field K] [LinearOrder K] [IsStrictOrderedRing K]
+
+theorem entry_real {c w : K} (hc : 0 ≤ c) (hw : 0 ≤ w) (a y v x : K) :
+    (c / 2) * (w * ((y - a * ((c * (a * (w * y)) + v) / (c * (w * (a * a)) + 1))) *
+        (y - a * ((c * (a * (w * y)) + v) / (c * (w * (a * a)) + 1)))))
+      + (1 / 2) * ((c * (a * (w * y)) + v) / (c * (w * (a * a)) + 1) - v) ^ 2
+    ≤ (c / 2) * (w * ((y - a * x) * (y - a * x))) + (1 / 2) * (x - v) ^ 2 := by
+  have hd : 0 < c * (w * (a * a)) + 1 := by
+    have := mul_nonneg hc (mul_nonneg hw (mul_self_nonneg a)); linarith
+  have key : (c / 2) * (w * ((y - a * x) * (y - a * x))) + (1 / 2) * (x - v) ^ 2
+      - ((c / 2) * (w * ((y - a * ((c * (a * (w * y)) + v) / (c * (w * (a * a)) + 1))) *
+        (y - a * ((c * (a * (w * y)) + v) / (c * (w * (a * a)) + 1)))))
+      + (1 / 2) * ((c * (a * (w * y)) + v) / (c * (w * (a * a)) + 1) - v) ^ 2)
+      = (1 / 2) * (c * (w * (a * a)) + 1) * (x - (c * (a * (w * y)) + v) / (c * (w * (a * a)) + 1)) ^ 2 := by
+    field_simp
+    ring
+  have : 0 ≤ (1 / 2) * (c * (w * (a * a)) + 1) * (x - (c * (a * (w * y)) + v) / (c * (w * (a * a)) + 1)) ^ 2 := by
+    positivity
+  linarith
+
+/-- the documented objective `lam·scale·Σ w_i (y_i − a_i x_i)² + ½ Σ (x_i − v_i)²` of the prox of a
+    weighted squared-ℓ² loss with real diagonal forward operator, on lists -/
+def diagObj (scale lam : K) (w a y v x : List K) : K :=
+  lam * (scale * (List.zipWith (· * ·) w (sqmags false (List.zipWith (· - ·) y (List.zipWith (· * ·) a x)))).sum)
+    + (1 / 2) * (List.zipWith (fun xi vi => (xi - vi) ^ 2) x v).sum
+
+/-- **real diagonal `A`, whole arrays**: the list returned by the closed-form branch minimises the
+    documented objective among all arrays of the same length -/
+theorem sqL2DiagProx_minimises_real {scale lam : K} (hc : 0 ≤ (1 + 1) * scale * lam) :
+    ∀ (w a y v x : List K), (∀ wi ∈ w, 0 ≤ wi) → w.length = v.length → a.length = v.length →
+      y.length = v.length → x.length = v.length →
+      diagObj scale lam w a y v (sqL2DiagProx false scale lam (some w) a y v) ≤ diagObj scale lam w a y v x := by
+  intro w a y v
+  induction v generalizing w a y with
+  | nil =>
+    intro x _ h1 h2 h3 h4
+    simp only [List.length_nil, List.length_eq_zero_iff] at h1 h2 h3 h4
+    subst h1 h2 h3 h4
+    simp [diagObj, sqL2DiagProx, sqmags, emul, econj, rmulL, edivR]
+  | cons v0 v ih =>
+    intro x hw h1 h2 h3 h4
+    match w, a, y, x, h1, h2, h3, h4 with
+    | w0 :: w, a0 :: a, y0 :: y, x0 :: x, h1, h2, h3, h4 =>
+      simp only [List.length_cons, Nat.add_right_cancel_iff] at h1 h2 h3 h4
+      have ih' := ih w a y x (fun wi hwi => hw wi (by simp [hwi])) h1 h2 h3 h4
+      have hw0 : 0 ≤ w0 := hw w0 (by simp)
+      have he := entry_real hc hw0 a0 y0 v0 x0
+      simp only [diagObj, sqL2DiagProx, sqmags, emul, econj, rmulL, edivR, Option.getD, Bool.false_eq_true,
+        if_false, List.zipWith_cons_cons, List.map_cons, List.sum_cons] at ih' ⊢
+      linarith
+    | [], _, _, _, h1, _, _, _ => simp at h1
+    | _ :: _, [], _, _, _, h2, _, _ => simp at h2
+    | _ :: _, _ :: _, [], _, _, _, h3, _ => simp at h3
+    | _ :: _, _ :: _, _ :: _, [], _, _, _, h4 => simp at h4
+
+end diaglist
+
+section evalsq
+variable {K : Type} [Field K] [LinearOrder K] [IsStrictOrderedRing K] [HasSqrt K]
+
+/-- what `SquaredL2Loss.__call__` evaluates for real data and a Diagonal forward operator -/
+theorem eval_sqL2_diag_real (E : Env K) (hE : E.cplx = false) (w a y x : List K) (s : K)
+    (h1 : a.length = x.length) (h2 : y.length = x.length) :
+    eval E (.sqL2 (.arr y) (.diag a) (some w) s) (.arr x)
+      = .ok (s * (List.zipWith (· * ·) w (sqmags false (List.zipWith (· - ·) y (List.zipWith (· * ·) a x)))).sum) := by
+  have hl : (List.zipWith (· * ·) a x).length = x.length := by simp [h1]
+  have hl2 : y.length = (List.zipWith (· * ·) a x).length := by rw [hl, h2]
+  simp [eval, OpK.apply, hE, emul, hl, Arg.sub, Arg.zip, zipSame, hl2, Except.map, bind, Except.bind, pure,
+    Except.pure, wsum, Arg.flat]
+end evalsq
+
 end Scico.ProxCalc
